@@ -10,6 +10,10 @@ CHECKS = {
    text="Exhaustive small-scope comparison with a reference interpreter: ~90 leaf schemas (every (min,max) presence combination incl. min>max, units, patterns, enums with/without display names, typed enum, any) plus lists/maps over one representative per kind x 6 size-bound combinations x 4 key kinds and depth-2 nestings, each against its full boundary value set in every Go representation (int/uint widths, float32/64, decimal and unit strings, boolean words, 2^63 edges, NaN/Inf, wrong types). Unserialize must accept exactly what the reference denotes and return exactly that value; Validate and Serialize must enforce the same constraints on every value of the native type and produce the reference wire form.",
    note="Trusted: the reference interpreter harness/ukit/ref.go (independent for bounds/sizes/membership/unit arithmetic; delegates to strconv and fmt for the lenient conversions); ambiguous inputs are skipped and counted.",
    technique="exhaustive enumeration of a bounded (schema, value) universe against a reference model (differential, small-scope)", design="DESIGN.md §6, §7 C02"),
+ "C03": dict(level="exploration", engine="U",
+   text="~9500 object schemas generated from ALL combinations of the per-property flags (required, required_if / required_if_not / conflicts over every subset of the other properties, default, disabled) for 1- and 2-property objects (map-based and struct-mapped) and bounded flag counts for 3 properties, each against every subset of supplied properties x {valid, type-invalid} values in two map representations plus undeclared keys, non-string keys and lone values; Unserialize (verdict, defaults, value), Validate and Serialize are compared with a reference presence interpreter. One-of schemas (string/int keys, inlined or not, map-based / struct-mapped / referenced members) are compared with a reference dispatcher over discriminators in every representation, unknown, missing and wrongly typed, with member-valid and member-invalid payloads.",
+   note="Trusted: the reference presence interpreter and dispatcher in harness/ukit/ref_object.go; disabled properties in native values and struct-mapped native values are skipped as ambiguous.",
+   technique="exhaustive enumeration of the flag-combination space of small objects x supplied-property subsets against a reference model", design="DESIGN.md §7 C03"),
  "C04": dict(level="exploration", engine="U",
    text="Exhaustive small-scope enumeration: every spec of U_2 (~600 schemas: all leaf kinds x bound presence combinations, lists, maps, map-based and struct-mapped objects, typed enums, one-ofs, scopes with (recursive) references, containers of those) x {its own boundary/representation value set; a valid value with each of ~55 hostile values (nil, typed nils, named scalars, byte strings, CBOR tags, big numbers, typed maps/slices, non-string and NaN keys, extreme numbers, nesting depth 1000) at every value and key position; the native value likewise} x {Unserialize, data-mode ValidateCompatibility, Validate, Serialize}; each call must return - a panic is caught per case, a fatal runtime error or hang kills the supervised worker and is attributed to the case in flight.",
    note="Trusted: the enumerators in harness/ukit; single substitution per value; panics are identified by (function of the SDK on the stack, message class).",
